@@ -39,7 +39,9 @@ AltCall ==
                                  /\ may' # {}
        [] R.res = "cancelled" -> \* dropped: it may have taken effect or not
                                  /\ may' = IF R.op \in may THEN Both ELSE may
-       [] OTHER               -> UNCHANGED may                    \* timeout, no peer: no transition
+       \* timeout, no peer: rzmq's REQ gives up a recv() that timed out and accepts a send again
+       \* (see C10); either way the machine stays usable
+       [] OTHER               -> may' = IF R.op \in may THEN Both ELSE may
   /\ UNCHANGED kind
 
 TraceNext == /\ l <= Len(Rec) /\ l' = l + 1 /\ (Reset \/ FreeCall \/ AltCall)
